@@ -554,17 +554,46 @@ func (s *Scanner) ScanSQL(sql string) *ScanResult {
 
 // scanStatement analyzes a single statement for injection patterns.
 func (s *Scanner) scanStatement(stmt ast.Statement, result *ScanResult) {
-	switch st := stmt.(type) {
-	case *ast.SelectStatement:
-		s.scanSelectStatement(st, result)
-	case *ast.InsertStatement:
-		s.scanInsertStatement(st, result)
-	case *ast.UpdateStatement:
-		s.scanUpdateStatement(st, result)
-	case *ast.DeleteStatement:
-		s.scanDeleteStatement(st, result)
-	case *ast.SetOperation:
-		s.scanSetOperation(st, result)
+	if stmt == nil {
+		return
+	}
+	// Visit every node of the statement, so that a payload is found wherever it
+	// occurs (JOIN conditions, sub-queries in any clause, CTE bodies, CASE arms,
+	// function arguments, ...), not only in the top-level WHERE / HAVING.
+	ast.Inspect(stmt, func(n ast.Node) bool {
+		switch e := n.(type) {
+		case *ast.SetOperation:
+			if e != nil && strings.ToUpper(e.Operator) == "UNION" {
+				s.checkUnionInjection(e, result)
+			}
+		case *ast.BinaryExpression:
+			s.checkBinaryExpression(e, result)
+		case *ast.FunctionCall:
+			s.checkFunctionCall(e, result)
+		}
+		return true
+	})
+}
+
+// checkBinaryExpression applies the tautology checks to one binary expression (without descending).
+func (s *Scanner) checkBinaryExpression(expr *ast.BinaryExpression, result *ScanResult) {
+	if expr == nil {
+		return
+	}
+	if s.isTautology(expr) {
+		finding := Finding{
+			Severity:    SeverityCritical,
+			Pattern:     PatternTautology,
+			Description: "Always-true condition detected (tautology)",
+			Risk:        "Authentication bypass, data extraction",
+			Suggestion:  "Remove or replace with proper condition",
+		}
+		if s.shouldInclude(finding.Severity) {
+			result.Findings = append(result.Findings, finding)
+		}
+	}
+	if strings.ToUpper(expr.Operator) == "OR" {
+		s.checkOrInjection(expr, result)
 	}
 }
 
@@ -823,7 +852,7 @@ func (s *Scanner) isSystemTable(tableName string) bool {
 }
 
 // scanFunctionCall checks for dangerous function usage.
-func (s *Scanner) scanFunctionCall(fn *ast.FunctionCall, result *ScanResult) {
+func (s *Scanner) checkFunctionCall(fn *ast.FunctionCall, result *ScanResult) {
 	if fn == nil {
 		return
 	}
@@ -877,6 +906,14 @@ func (s *Scanner) scanFunctionCall(fn *ast.FunctionCall, result *ScanResult) {
 	}
 
 	// Recursively check function arguments
+}
+
+// scanFunctionCall checks a function call and, recursively, its arguments.
+func (s *Scanner) scanFunctionCall(fn *ast.FunctionCall, result *ScanResult) {
+	if fn == nil {
+		return
+	}
+	s.checkFunctionCall(fn, result)
 	for _, arg := range fn.Arguments {
 		s.scanExpressionForDangerousFunctions(arg, result)
 	}
